@@ -265,7 +265,7 @@ class Gen:
 			return ' = '.join(lhs) + ' = ' + self.testlist(d)
 		if c <= 12:
 			value = f' = {self.expr(d, LAMBDA)}' if self.chance(0.75) else ''
-			return f'{self.target(0) if self.chance(0.2) else self.name()}: {self.type_expr()}{value}'
+			return f'{self.target(0) if self.chance(0.2) and not self.friendly else self.name()}: {self.type_expr()}{value}'
 		if c <= 14:
 			op = self.pick(['+=', '-=', '*=', '/=', '%=', '&=', '|=', '^=', '<<=', '>>=', '**=', '//=', '@='])
 			return f'{self.target(d - 1)} {op} {self.expr(d, LAMBDA)}'
@@ -300,11 +300,11 @@ class Gen:
 				f"{self.name()} = TypedDict('D', {{'a': {self.type_expr(1)}, 'b': {self.type_expr(1)}}})"])
 		return self.expr(d, LAMBDA)
 
-	def params(self, method: bool) -> str:
+	def params(self, method: bool, first: str = 'self') -> str:
 		r = self.rnd
 		ps: list[str] = []
 		if method:
-			ps.append(self.pick(['self', 'self', 'cls']))
+			ps.append(first if self.friendly else self.pick(['self', 'self', 'cls']))
 		names = list(dict.fromkeys(self.name() for _ in range(r.randint(0, 3))))
 		names = [n for n in names if n not in ('self', 'cls')]
 		defaults = False
@@ -324,10 +324,11 @@ class Gen:
 			self.stats['empty_slots'] += 1
 		return self.join_items(ps, trailing_ok=False) if ps else ''
 
-	def decorators(self, ind: str) -> list[str]:
+	def decorators(self, ind: str, method: bool = False) -> list[str]:
 		out = []
 		for _ in range(self.rnd.randint(1, 2) if self.chance(0.25) else 0):
-			path = self.pick(['classmethod', 'property', 'staticmethod', 'abstractmethod', 'Embed.public', 'deco', 'pkg.mod.deco'])
+			pool = ['Embed.public', 'deco', 'pkg.mod.deco'] + (['classmethod', 'property', 'abstractmethod'] + ([] if self.friendly else ['staticmethod']) if method or not self.friendly else [])
+			path = self.pick(pool)
 			args = f'({self.arguments(1)})' if self.chance(0.3) else ''
 			out.append(f'{ind}@{path}{args}')
 		return out
@@ -361,8 +362,11 @@ class Gen:
 		c = r.randint(0, 11)
 		if c <= 2:
 			tparams = f'[{", ".join(dict.fromkeys(self.pick(["T", "K", "V"]) for _ in range(r.randint(1, 2))))}]' if self.chance(0.08) else ''
-			head = f'def {self.name()}{tparams}({self.params(in_class)}) -> {self.pick(["None", self.type_expr()])}'
-			return self.decorators(ind) + self.suite(head, depth, level, ind_unit, False, True)
+			decos = self.decorators(ind, in_class)
+			first = 'cls' if any('@classmethod' in d for d in decos[:1]) else 'self'
+			fname = '__init__' if in_class and first == 'self' and self.chance(0.3) else self.name()
+			head = f'def {fname}{tparams}({self.params(in_class, first)}) -> {self.pick(["None", self.type_expr()])}'
+			return decos + self.suite(head, depth, level, ind_unit, False, True)
 		if c <= 5:
 			out = self.suite(f'if {self.expr(2, LAMBDA)}', depth, level, ind_unit, in_class, in_func)
 			n_elif = r.randint(1, 2) if self.chance(0.3) else 0
